@@ -7,6 +7,10 @@ HOOK_COMMITS = ["189fd6a"]
 
 # id -> (technique, level text, level note, design ref)
 CLAIMED = {
+ "C16": ("Lean 4 digit-list arithmetic proofs over the transcribed Decimal.String/SetString/sanity + correspondence with asetypes.Decimal and a math/big.Rat oracle",
+         "Proof: for every precision, every scale 0..precision and every integer with at most precision digits, SetString(String(d)) gives back the value; the text has the exact shape sign/integer digits without leading zeros/point/fraction without trailing zeros and denotes exactly i/10^scale; a numeral parses to exactly its value x 10^scale iff it is representable (digits beyond the scale all zero, at most precision digits), everything else (second point, garbage, non-zero digit beyond the scale, too many digits) is an error; exactly the pairs 0 <= scale <= precision <= 38 pass construction. The defects found (silent value change, negative scale) were repaired (fix commits 39e6d79, 5e05441).",
+         "Trusted: Lean kernel; hand-restated Go stdlib behaviour (strings.TrimSpace/Split/Trim*, big.Int.SetString(_,10) syntax, %0Ns padding of big.Int text) tied to the real code only by the correspondence harness; text must be valid UTF-8.",
+         "DESIGN.md §7 C16"),
  "C18": ("Lean 4 invariant proof over all operation sequences and all resolutions of the nondeterminism of an abstract pool model + validation of recorded concurrent histories of the real pool by the proved-sound Lean validator and an independent Go oracle",
          "Proof: for every sequence of acquire/release/double release/release nil/gc and every nondeterministic choice (which pooled id is popped, mint, what GC drops) pooled and held ids are pairwise distinct, ids are >= 1, texts are the format applied to the id and injective in the id; release clears and is idempotent; the history validator is sound (accepted history => no two live names share id or text) and complete for model histories. Real concurrent histories (1..64 goroutines, forced GC, -race child in the thorough tier) are recorded and validated.",
          "Trusted: Lean kernel; linearizability of sync.Pool and atomic.AddUint64 (what lets a concurrent history be read as a sequence); logged live intervals lie inside the real ones; a Name is not copied by value; uint64 wrap-around not modelled. Concurrency itself (the Go memory model, the scheduler) is outside the theorem: partial by nature, the race detector run is supporting evidence.",
